@@ -120,7 +120,11 @@ def sym_events(path: Path, keep: Iterable[str] = ()) -> list[SymEvent]:
             if isinstance(n, ast.AugAssign) and isinstance(n.target, ast.Name):
                 v = subst(n.value, env)
                 out.append(SymEvent(e, ast.copy_location(ast.AugAssign(target=n.target, op=n.op, value=v), n), i))
-                env.pop(n.target.id, None)  # stays symbolic from here on
+                if n.target.id in env and n.target.id not in keep:
+                    # a local with a known value on this path: x op= v  is  x = <value> op v
+                    env[n.target.id] = ast.BinOp(left=env[n.target.id], op=n.op, right=v)
+                else:
+                    env.pop(n.target.id, None)  # loop-carried / kept: stays symbolic from here on
                 continue
             new = subst(n, env)
             out.append(SymEvent(e, new, i))
